@@ -97,11 +97,15 @@ def _run_unary_sync(
                 app._server._check_protocol_version(md.get(PROTOCOL_VERSION_KEY) if md is not None else None)
             try:
                 _deserialize_params(kwargs, info.param_types, app._server.ipc_validation)
-            except (KeyError, ValueError) as exc:
+            except (KeyError, ValueError, OSError) as exc:
                 # These are caller-value conversion failures (notably an
                 # unknown dictionary-encoded enum member), so classify them as
                 # malformed parameters without also misclassifying failures
                 # raised earlier by external-location resolution.
+                # OSError: a dataclass parameter travels as a nested Arrow IPC stream
+                # held in memory, and Arrow reports a short message body or an
+                # invalid flatbuffer in it as an IOError -- a bad parameter value,
+                # not an I/O failure (nothing here touches storage or a socket).
                 raise TypeError(str(exc)) from exc
             # Caller-controlled shape is refused *here*, while the request is
             # still being validated, so that anything raised past this point
